@@ -11,7 +11,7 @@ MANIFEST = {
 CFG = """CONSTANTS MaxLen = %d  LongEdits = %d  Emit = TRUE
 INIT Init
 NEXT Next
-INVARIANTS TextCase Identity StatBounds
+INVARIANTS TextCase Identity StatBounds Compositional
 CHECK_DEADLOCK FALSE
 """
 CFG2 = """CONSTANTS MaxLen = 0  LongEdits = 0  Emit = FALSE
@@ -24,7 +24,8 @@ CHECK_DEADLOCK FALSE
 # a wrong new-side start makes git apply search from the wrong place: it may still find the right spot,
 # apply at a wrong matching spot, or give up - the outcome is not a function of the patch class
 FRAGILE = {"new-start"}
-STYLE = {"context-exceeds-request", "not-minimal", "stats-differ", "stats-missing-file", "binary-marker-on-text", "old-mode-inexact"}
+STYLE = {"context-exceeds-request", "not-minimal", "stats-differ", "stats-missing-file", "binary-marker-on-text", "old-mode-inexact",
+         "state-leaks-between-files", "unusable-solo-patch"}
 
 
 def run(ctx):
